@@ -193,12 +193,12 @@ Step ==
             \* rustc's diagnostics).  where = "glue": an expected item is missing or has another
             \* signature (C19).  where = "decl": bare_ok tells whether the same declaration compiles
             \* with the derive but without any feature: yes -> the configuration is to blame (C10),
-            \* no -> the declaration itself is not accepted (C11).  In a scope / renaming group the
-            \* group property is violated as well when an earlier member of the group compiled.
+            \* no -> the declaration itself is not accepted (C11).  In a scope / renaming / order-and-repr
+            \* group the group property is violated as well when an earlier member of the group compiled.
             /\ LET same == e.grp = meta.grp /\ e.grp # "" IN
                /\ Report("compile",
                          (IF e.where = "glue" THEN {"C19"} ELSE IF e.bare_ok THEN {"C10"} ELSE {"C11"})
-                         \cup (IF e.gprop \in {"C15", "C16"} /\ same /\ gst.ok THEN {e.gprop} ELSE {}), e)
+                         \cup (IF e.gprop \in {"C15", "C16", "C18"} /\ same /\ gst.ok THEN {e.gprop} ELSE {}), e)
                /\ gst' = IF same THEN gst ELSE [start |-> l, ok |-> FALSE]
             /\ meta' = [case |-> e.case, grp |-> e.grp, gprop |-> e.gprop]
             /\ its' = NoIts /\ UNCHANGED <<D, base>>
